@@ -192,6 +192,17 @@ fn gen(dir: &str) {
             emit(&mut out, format!("ref {} {} {}", size, a, b));
         }
     }
+    // quick: a sparse sample of the tiers beyond the dense range (the extracted model's 12^k is quadratic in k, so only a
+    // few dozen), so that a guard or shortcut keyed on a large tier count is met in every run
+    if !thorough {
+        for j in 0..36u64 {
+            let t = 61 + (j * 339) / 35 + if j > 0 && j < 35 { r.below(5) } else { 0 };     // 61 ..= 400, jittered
+            for d in [-1i64, 0, 1] {
+                let (a, b) = if j % 2 == 0 { (15, 1) } else { price(&mut r) };
+                emit(&mut out, format!("ref {} {} {}", (t.min(400) * 25600) as i64 + d, a, b));
+            }
+        }
+    }
     for _ in 0..n {
         let max = if thorough { 25600 * 400 } else { 25600 * 80 };
         let size = match r.below(3) { 0 => r.below(204800), 1 => r.below(max), _ => 25600 * r.below(max / 25600) + r.below(3) };
